@@ -273,6 +273,10 @@ def margin_from_one_line(ctx: Ctx):
         for c in ast.walk(m.node):
             if isinstance(c, ast.Call) and isinstance(c.func, ast.Name) and c.func.id in mod.classes:
                 member_cls.setdefault(name, c.func.id)
+    if not guarded_classes:
+        # the comparability test is not recognisable any more (renamed): nothing to compare the accessors' guards with
+        ctx.undecided("margin-from-one-line", f"{MM}::_BaseMarginal subclasses", "no marginal states count comparability in its is_defined", "`_counts_are_defined` / `_base_values is not None`")
+        return
     for ci in unguarded:
         members = [k for k, v in member_cls.items() if v == ci.name]
         sites = 0
